@@ -235,7 +235,7 @@ def E2() -> bool:
 
 def _shards(tier):
     N, D = (4, 3) if tier == "quick" else (5, 3)
-    profiles = [{}, {"open": 1}, {"open": 3}, {"msg": 4}, {"exc": 2}, {"fin": 1}]
+    profiles = [{}, {"open": 1}, {"open": 3}, {"msg": 4}, {"exc": 2}, {"fin": 1}, {"empty_type": 1}]
     out = []
     for p in profiles:
         base = dict(p, N=N if not p else max(2, N - 1), D=D)
@@ -269,7 +269,7 @@ OBLIGATIONS = [
         shards=_shards,
         twin=[{"N": 3, "D": 3, "twin_label": "mid-write-nested"}],
         timeout={"quick": 100, "thorough": 1200},
-        bounds={"quick": "programs <= 4 ops (baseline) / <= 3 ops (5 other style profiles), depth <= 3; every crash instant; cut classes {nothing, strictly inside, whole}", "thorough": "programs <= 5 / <= 4 ops"},
+        bounds={"quick": "programs <= 4 ops (baseline) / <= 3 ops (6 other style profiles, incl. the default empty action type), depth <= 3; every crash instant; cut classes {nothing, strictly inside, whole}", "thorough": "programs <= 5 / <= 4 ops"},
     ),
 ]
 OBLIGATIONS += OBLIGATIONS_TAIL
